@@ -1,5 +1,5 @@
 (** C03 — witnesses: histories on which the faithful models violate cache
-    transparency (FIFO cache, rd = 1; any cache, rd > 1). *)
+    transparency (any cache, rd > 1), and a regression history for FIFO. *)
 From Coq Require Import ZArith List Bool Lia.
 From Hts Require Import Base.Prim Model.Flat Model.Reader Model.ReaderAsync Proofs.ReaderFlat Proofs.ReaderStore.
 Import ListNotations.
@@ -18,14 +18,15 @@ Definition ten_blocks : file :=
 Definition fifo_history : list rop :=
   [OSetCache KFIFO 5; ORead 2; ORead 2; ORead 2; OSeek 0 0; ORead 2; ORead 2; ORead 2; ORead 2; OSeek 60 0; ORead 2].
 
-(** With a FIFO cache of capacity 5 the read after Seek(block 2) returns the
-    payload of block 3 ([6;7]); without the cache it returns [4;5]. *)
+(** The history on which FIFO used to fail (FIFO.Put now keeps a block it still
+    indexes): with the cache the read after Seek(block 2) returns block 2's
+    payload, as without it. *)
 Definition last_ret (F : file) (ch : list nat) (ops : list rop) : option fret :=
   match run_rets F ch ops with Some l => Some (last l ([], 0)) | None => None end.
 
-Lemma fifo_witness :
+Lemma fifo_history_ok :
   wf_file ten_blocks = true /\ Forall (valid_op ten_blocks) fifo_history /\
-  last_ret ten_blocks [] fifo_history = Some ([6; 7], eNil) /\
+  last_ret ten_blocks [] fifo_history = Some ([4; 5], eNil) /\
   last_ret ten_blocks [] (strip_cache fifo_history) = Some ([4; 5], eNil).
 Proof.
   split; [vm_compute; reflexivity|].
